@@ -228,7 +228,7 @@ fn random_string(rng: &mut Rng, maxlen: usize) -> String {
 // ------------------------------------------------------------------ part B
 
 const VAR_NAMES: [&str; 6] = ["v1", "v2", "v3", "V_4", "_v5", "IFS"];
-const ODD_NAMES: [&str; 8] = ["a b", "-n", "x*", "é", "a.b", "q'q", "~t", "#h"];
+const ODD_NAMES: [&str; 12] = ["a b", "-n", "x*", "é", "a.b", "q'q", "~t", "#h", "-a b", "-x*", "", "-"];
 const ALIAS_NAMES: [&str; 9] = ["al1", "al2", "b*c", "-x", "a.b", "é1", "x y", "q'q", "!z"];
 const FUNC_NAMES: [&str; 8] = ["f1", "f2", "a.b", "-f", "x*", "é", "f 3", "q\"q"];
 const OPTIONS: [&str; 11] = ["allexport", "noclobber", "noglob", "hashondefinition", "ignoreeof", "nolog", "notify", "pipefail", "nounset", "vi", "posixlycorrect"];
@@ -512,7 +512,8 @@ fn check_state(ctx: &Ctx, idx: usize, rng: &mut Rng) {
             "umask" | "umaskS" => format!("umask {listing}"),
             _ => listing.clone(),
         };
-        let mut s2 = format!("{script2}\nsnap s2\n");
+        // (the EXIT trap is taken out after the snapshot: its action is arbitrary text and must not run)
+        let mut s2 = format!("{script2}\nsnap s2\ntrap - EXIT\n");
         let mut out2 = run_script(&s2, false);
         if file == "typesetf" && out2.err().contains("the `function` keyword is not yet supported") && listing.lines().any(|l| l.starts_with("function ")) {
             // a function whose name needs quoting is printed with the `function` keyword, which this
@@ -527,7 +528,7 @@ fn check_state(ctx: &Ctx, idx: usize, rng: &mut Rng) {
                 ),
             );
             let stripped: String = listing.lines().map(|l| l.strip_prefix("function ").unwrap_or(l)).collect::<Vec<_>>().join("\n");
-            s2 = format!("{stripped}\nsnap s2\n");
+            s2 = format!("{stripped}\nsnap s2\ntrap - EXIT\n");
             out2 = run_script(&s2, false);
         }
         ctx.count("listings_evaluated", 1);
@@ -542,6 +543,10 @@ fn check_state(ctx: &Ctx, idx: usize, rng: &mut Rng) {
             ctx.violation(format!("listing-not-evaluable:{cmd}"), detail("the fresh shell did not get through the listing"));
             continue;
         };
+        if !out2.err().is_empty() {
+            ctx.violation(format!("listing-evaluation-reports-errors:{cmd}"), detail("the fresh shell printed diagnostics while evaluating the listing"));
+            continue;
+        }
         let snap2 = parse_snap(e2);
         let f1 = facet_of(file, &snap1);
         let f2 = facet_of(file, &snap2);
